@@ -16,7 +16,7 @@ model (and outside the property: the stream carries the packets).  queue.Queue i
 Contract families -> clauses of DESIGN.md section C18:
  1. codec.roundtrip.*, codec.decode.*      header round trip for all 4 x 4 x 7 x 2 combinations; all 65,536 header values decoded,
                                            version != 0 -> RuntimeError (payload lengths enumerated: 0, 1, 30 / 0, 2)
- 2. tcp.write.*                            frame layout of writePacket, 16-bit limit (65533 ok, 65534 refused, never wraps)
+ 2. tcp.write.*                            frame layout of writePacket, 16-bit limit (65533 ok, 65534.. refused, never wraps)
     tcp.readData.inductive                 _readData for EVERY size and EVERY fragmentation (loop invariant + variant)
     tcp.readPacket.inductive               readPacket at any frame boundary, EVERY payload length 0..65533 and fragmentation, modular
                                            on the contract of _readData (induction step of "k frames are read back as k packets")
@@ -31,21 +31,50 @@ Contract families -> clauses of DESIGN.md section C18:
     tcpdriver.receive_thread, serialdriver.receive_thread (+ .no_crtp_header)   downlink tunnel, same quantification
     tcpdriver.downlink.end_to_end          stream -> ... -> driver queue on one sequential schedule
 
+Extension round (second half of the file):
+ 5. codec.roundtrip.anylen, tcp.write.anylen    encoding / framing for EVERY payload length (payload = window of symbolic length into an
+                                           SMT array, `c.view`): together with tcp.readPacket.inductive the round trip writePacket ->
+                                           any fragmentation -> readPacket holds for every length 0..65533, not only the enumerated ones
+ 6. tcp.session.reconnect, tcp.session.reconnect_after_interrupted_read     transport built by its REAL constructor on a stubbed
+                                           `socket` module: one connection to (host, port); disconnect + connect -> only the new
+                                           connection is used, nothing of the old stream (unread bytes, a frame cut short) leaks
+ 7. explicit schedules (the other thread's action runs inside a stub call of the thread under analysis):
+    router.makeTransaction.*               answer dispatched while the client is inside transport.writePacket / before the send
+    router.dispatch.interleaved, .late_registration     receiver drains / registers between two arrivals
+    cpx.close, cpx.close.during_read.*     close() between frames / during any recv of any fragmentation
+    uart.write.second_frame_waits_for_clear_to_send     writer waits on the clear-to-send lock while the reader thread runs
+    <driver>.receive_thread.stop           stop() while the receive thread is inside cpx.receivePacket
+ 8. TcpDriver.receive_packet, SerialDriver.receive_packet, <driver>.receive_thread.sequence, tcpdriver.uplink.sequence
+                                           last hop of the downlink, sequences with idle polls / errors in between, uplink sequences
+ 9. tcpdriver.session, serialdriver.session     whole sessions of the REAL drivers (connect - send - receive - close [- connect]) on a
+                                           stubbed socket / pyserial: URI -> connection, threads started once, bridge set-up frames,
+                                           clear-to-send flow control, close stops everything, no state of an old session in a new one
+ thorough tier only: larger bounds of 2./3. (tcp.readData.8_of_10/.11_of_11, tcp.reassembly.2.allheaders/.3.allheaders/.1_2_1/.4_4/
+    .2_2_2/.10/.0_0_0_0_0, router.dispatch.5pk/.6pk/.burst.1000/.interleaved.6pk/.late_registration.8pk, pipeline.2_1_2/.1_1_1_1/
+    .0_0_0_0_0/.1_0_1.bad_version_at_2/_3/.2_2.bad_version_at_1, tcpdriver.downlink.end_to_end.4_frames, uart.*.len2/10/50/64/96/97) and the two contracts that are RED on the unchanged tree (candidate
+    findings, reported to the maintainer): router.makeTransaction.first_use_of_function, cpx.close.during_read.1_3
+
 NOT covered (and why):
- * thread interleavings: the router thread, the drivers' receive threads and the client thread run here on sequential
-   schedules (service loops are run for a scripted number of events and left by the pseudo exceptions StopLoop / Deadlock);
-   concurrent receivePacket / run on the same queue rely on queue.Queue being thread safe; `disconnect()` setting
-   `_socket = None` while `_readData` loops, `_CPXReceiveThread.stop()` and `CPXRouter.transport()` are not analysed;
- * UARTTransport: frame layout, 100-byte limit, clear-to-send tokens and the write -> read round trip are covered by uart.*
-   for payload lengths 0, 1, 30, 98 on a port model that returns exactly the requested bytes; NOT covered: the writer
-   blocking on the clear-to-send lock while the reader thread releases it (interleaving), checksum errors (the code only
-   prints), noise before the sync token in connect();
- * encoding (`_get_wire_data`) for a payload of symbolic length: the engine cannot extend a concrete bytearray by a
-   symbolic-length sequence, so encode / writePacket are proved for the enumerated payload lengths 0, 1, 30 (and 65533/65534
-   with concrete content); decoding and re-assembly ARE proved for every length (tcp.readPacket.inductive);
- * `CPXPacket.length` is fixed by the constructor: a caller that replaces `data` afterwards gets a wrong frame length from
-   writePacket - not reachable through the drivers under contract (they build the packet in one go), not part of the clauses;
- * CPXRouter.makeTransaction, CPX.close, connect() of the drivers (real sockets / serial ports, URI parsing).
+ * real pre-emption between two statements of one function: the router thread, the receive threads and the client threads are run on
+   sequential schedules in which a thread switch happens only inside a stub call (transport / socket / port / facade / lock wait); e.g.
+   a receiver registering between the `not in self._rxQueues` test and the `put` in CPXRouter.run cannot be expressed; concurrent
+   receivePacket / run on one queue rely on queue.Queue being thread safe;
+ * UARTTransport: frame layout, 100-byte limit, clear-to-send tokens and the write -> read round trip are covered by uart.* for payload
+   lengths 0, 1, 30, 98 (thorough: + 2, 10, 50, 64, 96, 97) on a port model that returns exactly the requested bytes - `_calcXORchecksum` iterates
+   over the frame (`for i in data`), for which the engine has no loop invariants, so no every-length contract; NOT covered: checksum
+   errors (the code only prints and still delivers the packet), noise before the sync token in connect() (a noise byte 0xFF directly in
+   front of the token makes connect() miss it - outside the clauses); an oversized packet leaves the clear-to-send lock held
+   (uart.write.limit states the refusal only; not reachable through the serial driver, whose packets are at most 34 bytes);
+ * the codec has no every-length contract for lengths above 4096 that is REPLAYABLE (the native witness of a `c.view` is cut at 4096
+   elements): a violation that needs a longer payload shows as ENGINE-MISMATCH (exit 3, never green) instead of VIOLATION;
+ * `CPXPacket.length` is fixed by the constructor and the default `data=bytearray()` is one shared object: a caller that replaces or
+   extends `data` afterwards gets a wrong frame length from writePacket - not reachable through the drivers under contract (they build
+   each packet in one go: tcpdriver.uplink.sequence), not part of the clauses;
+ * router dispatch is bounded in the number of packets (3, 5, bursts of 100 / 1000): the queues of the router are a dict of
+   queue.Queue objects, for which the engine has no symbolic-size model, so there is no inductive contract of CPXRouter.run;
+ * deliberately without contract: CPXPacket.__str__ (formatting), CPXTransport.* (abstract: every method raises NotImplementedError),
+   CRTPTransport.* (empty placeholders), the dead nested `__del__` in SocketTransport.readPacket, TcpDriver.scan_interface /
+   SerialDriver.scan_interface / get_status (hardware scan, constants); URI validation of connect() (wrong scheme) belongs to C11.
 """
 from pyvc.api import contract
 
@@ -146,7 +175,7 @@ def transport(c, sock):
     return c.obj(TRN + ':SocketTransport', _host='peer', _port=5000, _socket=sock)
 
 
-def stream_socket(c, name, stream, total):
+def stream_socket(c, name, stream, total, greedy=False):
     """Sequential model of the receiving side of a connected TCP socket carrying the byte string `stream`
     (spec name, `total` bytes): recv(n) returns a NON-EMPTY PREFIX of the unread bytes of length <= n; the length is
     chosen by the environment (one `choice` per call, so every way of cutting the stream is explored).  With
@@ -164,7 +193,8 @@ def stream_socket(c, name, stream, total):
         avail = total - st['pos']
         if avail == 0:
             return block()
-        k = c.choice('%s_cut%d' % (name, st['calls']), list(range(1, min(n, avail) + 1)))
+        # greedy: one schedule only (every recv returns as much as it may) - for contracts whose subject is not the fragmentation
+        k = min(n, avail) if greedy else c.choice('%s_cut%d' % (name, st['calls']), list(range(1, min(n, avail) + 1)))
         st['calls'] += 1
         lo = st['pos']
         st['pos'] = lo + k
@@ -196,9 +226,9 @@ for _n in (0, 1, 30):
 @contract('C18', 'tcp.write.limit', [TRN + ':SocketTransport.writePacket'],
           clause='payload lengths up to the maximum the 16-bit frame length can express (65533) are framed with the exact length; '
                  'a longer packet is refused (struct.error) with nothing put on the stream - the length never wraps around',
-          bounded='payload lengths 65533 and 65534, one header')
+          bounded='payload lengths 65533 (accepted), 65534, 65535, 65536, 70000 and 131070 (length + 2 == 0 modulo 2**16), one header')
 def write_limit(c):
-    n = c.choice('n', [65533, 65534])
+    n = c.choice('n', [65533, 65534, 65535, 65536, 70000, 131070])
     p = c.new(CPX + ':CPXPacket', function=c.new(CPX + ':CPXFunction', 5), destination=c.new(CPX + ':CPXTarget', 4),
               source=c.new(CPX + ':CPXTarget', 3), data=bytearray(n))
     tx = transport(c, c.ext('sock'))
@@ -210,11 +240,12 @@ def write_limit(c):
         c.ensure('refused-nothing-sent', "raised == 'struct.error' and calls() == ()")
 
 
-def _read_data(size, extra):
+def _read_data(size, extra, thorough=False):
     @contract('C18', 'tcp.readData.%d_of_%d' % (size, size + extra), [TRN + ':SocketTransport._readData'],
               clause='_readData(size) returns exactly the next `size` bytes of the stream and consumes exactly those, however the '
                      'stream is cut into receive chunks',
-              bounded='size %d, %d further bytes in the stream; all %d fragmentations' % (size, extra, 2 ** max(size - 1, 0)))
+              bounded='size %d, %d further bytes in the stream; all %d fragmentations' % (size, extra, 2 ** max(size - 1, 0)),
+              max_paths=6000, thorough_only=thorough)
     def k(c):
         c.bytes('S', size + extra)
         sock, st = stream_socket(c, 'sock', 'S', size + extra)
@@ -231,6 +262,8 @@ def _read_data(size, extra):
 
 for _a in ((0, 1), (1, 0), (2, 3), (5, 2)):
     _read_data(*_a)
+_read_data(8, 2, thorough=True)
+_read_data(11, 0, thorough=True)
 
 
 def fixed_packet(c, tag, fields, paylen):
@@ -265,7 +298,7 @@ def same_packet(i):
             "and r{0}.lastPacket == last{0} and bytes(r{0}.data) == bytes(pay{0}) and r{0}.length == len(pay{0})").format(i)
 
 
-def _reassembly(lens, symbolic_fields=False):
+def _reassembly(lens, symbolic_fields=False, thorough=False):
     nfrag = 1
     for n in lens:
         nfrag *= 2 * 2 ** (n + 1)
@@ -278,7 +311,7 @@ def _reassembly(lens, symbolic_fields=False):
               bounded='%d packet(s) with payload lengths %s, %s; all %d fragmentations of the %d-byte stream (exhaustive)' % (
                   len(lens), list(lens), 'all header combinations' if symbolic_fields else 'headers %r' % (HEADERS[:len(lens)],),
                   nfrag, sum(n + 4 for n in lens)),
-              max_paths=6000)
+              max_paths=8000, thorough_only=thorough)
     def k(c):
         total = write_stream(c, lens, symbolic_fields)
         sock, st = stream_socket(c, 'rsock', 'S', total)
@@ -303,6 +336,13 @@ _reassembly((0, 1, 2))
 _reassembly((2, 0, 1))
 _reassembly((3, 3))
 _reassembly((6,))
+_reassembly((2,), True, thorough=True)
+_reassembly((1, 2, 1), thorough=True)
+_reassembly((4, 4), thorough=True)
+_reassembly((0, 0, 0, 0, 0), thorough=True)
+_reassembly((3,), True, thorough=True)
+_reassembly((2, 2, 2), thorough=True)
+_reassembly((10,), thorough=True)
 
 
 # ------------------------------------------------------------------------- router
@@ -334,13 +374,13 @@ def drain(c, router, fn, upto, tag):
         got += 1
 
 
-def _dispatch(npk):
+def _dispatch(npk, thorough=False):
     @contract('C18', 'router.dispatch.%dpk' % npk, ROUTER,
               clause='received packets are queued per function in arrival order and handed only to receivers of that function: a '
                      'receiver of function r gets exactly the packets whose function value is r, the identical objects, in arrival '
                      'order; for all function values 0..63 of packets and receivers (also values outside the enumeration); a packet '
                      'arriving while no receiver has registered for its function is dropped (behaviour of the code, stated)',
-              bounded='%d packets, two registered receivers with different functions and one late receiver' % npk)
+              bounded='%d packets, two registered receivers with different functions and one late receiver' % npk, max_paths=3000, thorough_only=thorough)
     def k(c):
         fs = [c.int('f%d' % i, 0, 63) for i in range(npk)]
         pks = [c.ext('pk%d' % i, attrs={'function': c.ext('fn%d' % i, attrs={'value': fs[i]})}) for i in range(npk)]
@@ -374,6 +414,8 @@ def _dispatch(npk):
 
 _dispatch(1)
 _dispatch(3)
+_dispatch(5, thorough=True)
+_dispatch(6, thorough=True)
 
 
 # ------------------------------------------------------------------------- CRTP tunnelled through CPX
@@ -495,7 +537,7 @@ _downlink_empty(SER)
 
 # ------------------------------------------------------------------------- stream -> router -> receivers (integration)
 
-def _pipeline(lens, bad_at=None):
+def _pipeline(lens, bad_at=None, thorough=False):
     """HEADERS give the functions CRTP, APP, CRTP, CONSOLE, BOOTLOADER in turn; receivers: CRTP and APP registered, CONSOLE not"""
     name = 'pipeline.' + '_'.join(str(n) for n in lens) + ('' if bad_at is None else '.bad_version_at_%d' % bad_at)
     nfrag = 1
@@ -511,7 +553,7 @@ def _pipeline(lens, bad_at=None):
                      + ('' if bad_at is None else '; a frame with an unsupported version in the stream is consumed and rejected '
                         'without disturbing the framing of the packets behind it'),
               bounded='%d packets with payload lengths %s and headers %r; all %d fragmentations (exhaustive)' % (
-                  len(lens), list(lens), HEADERS[:len(lens)], nfrag), max_paths=6000)
+                  len(lens), list(lens), HEADERS[:len(lens)], nfrag), max_paths=6000, thorough_only=thorough)
     def k(c):
         total = write_stream(c, lens, False)
         if bad_at is not None:
@@ -542,6 +584,12 @@ _pipeline((1, 0, 1))
 _pipeline((0, 1, 0, 0))
 _pipeline((1, 1), bad_at=1)
 _pipeline((0, 2), bad_at=0)
+_pipeline((2, 1, 2), thorough=True)
+_pipeline((0, 0, 0, 0, 0), thorough=True)
+_pipeline((1, 0, 1), bad_at=2, thorough=True)
+_pipeline((1, 0, 1), bad_at=3, thorough=True)
+_pipeline((1, 1, 1, 1), thorough=True)
+_pipeline((2, 2), bad_at=1, thorough=True)
 
 
 # ------------------------------------------------------------------------- every fragmentation, every length (inductive)
@@ -691,43 +739,53 @@ _short_frame(1)
 
 # ------------------------------------------------------------------------- downlink end to end (sequential schedule)
 
-@contract('C18', 'tcpdriver.downlink.end_to_end',
-          SOCK + CODEC + ROUTER + [CPX + ':CPX.receivePacket', TCP + ':_CPXReceiveThread.run', STK + ':CRTPPacket.__init__'],
-          clause='CRTP packets tunnelled through CPX arrive with header and payload unchanged: frames written by the peer on the TCP '
-                 'stream, cut arbitrarily, pass the real transport, router loop, CPX facade and the driver\'s receive loop and end '
-                 'up on the driver\'s queue as the same CRTP packets in the same order; packets of another function do not',
-          bounded='one sequential schedule (receiver registers, router loop runs until the stream is exhausted, receive loop polls twice): '
-                  'frames CRTP[h0], APP[], CRTP[h2, d2] - CRTP payload lengths 0 and 1; all 512 fragmentations', max_paths=2000)
-def downlink_e2e(c):
-    lens = (1, 0, 2)
-    total = write_stream(c, lens, False)        # headers: STM32->HOST CRTP, GAP8->HOST APP, STM32->HOST CRTP
-    sock, st = stream_socket(c, 'rsock', 'S', total)
-    router = c.new(CPX + ':CPXRouter', transport(c, sock))
-    facade = c.obj(CPX + ':CPX', _router=router)
-    stop = c.raiser('StopLoop', 'schedule: receive loop pre-empted')
-    budget = {'polls': 2}
+def _downlink_e2e(lens, suffix='', thorough=False):
+    nfrag = 1
+    for n in lens:
+        nfrag *= 2 * 2 ** (n + 1)
 
-    def poll(_i, args, kwargs):
-        if budget['polls'] == 0:
-            return stop()
-        budget['polls'] -= 1
-        return c.invoke((facade, 'receivePacket'), *args, **kwargs)
-    thr = c.new(TCP + ':_CPXReceiveThread', c.ext('cpx', returns={'receivePacket': poll}), c.queue('inq'), c.ext('link_error'))
-    # the receive loop's first poll registers the CRTP receiver at the router; done here with timeout 0 instead of 0.1 s
-    c.call((facade, 'receivePacket'), c.new(CPX + ':CPXFunction', 3), timeout=0)
-    c.ensure('registered-nothing-yet', "raised == 'queue.Empty'")
-    c.call((router, 'run'))
-    c.let('pos', st['pos'])
-    c.ensure('router-reads-the-whole-stream', "raised == 'Deadlock' and pos == %d" % total)
-    c.call((thr, 'run'))
-    c.ensure('receive-loop-survives', "raised == 'StopLoop' and len(calls('link_error')) == 0")
-    c.ensure('two-crtp-packets-queued', 'len(inq.queue) == 2')
-    if c.snapshot('queued', 'len(inq.queue)') == 2:
-        c.snapshot('a', 'inq.queue[0]')
-        c.snapshot('b', 'inq.queue[1]')
-        c.ensure('first-packet', 'a.port == pay0[0] >> 4 and a.channel == pay0[0] & 3 and a.header == pay0[0] | 0x0C and bytes(a.data) == b""')
-        c.ensure('second-packet', 'b.port == pay2[0] >> 4 and b.channel == pay2[0] & 3 and b.header == pay2[0] | 0x0C and '
-                                  'bytes(b.data) == bytes(pay2[1:])')
+    @contract('C18', 'tcpdriver.downlink.end_to_end' + suffix,
+              SOCK + CODEC + ROUTER + [CPX + ':CPX.receivePacket', TCP + ':_CPXReceiveThread.run', STK + ':CRTPPacket.__init__'],
+              clause='CRTP packets tunnelled through CPX arrive with header and payload unchanged: frames written by the peer on the TCP '
+                     'stream, cut arbitrarily, pass the real transport, router loop, CPX facade and the driver\'s receive loop and end '
+                     'up on the driver\'s queue as the same CRTP packets in the same order; packets of another function do not',
+              bounded='one sequential schedule (receiver registers, router loop runs until the stream is exhausted, receive loop polls twice): '
+                      'frames CRTP[h0], APP[], CRTP[h2, d2]%s - CRTP payload lengths 0 and 1; all %d fragmentations' % (
+                          ', CONSOLE[]' if len(lens) > 3 else '', nfrag), max_paths=6000, thorough_only=thorough)
+    def downlink_e2e(c):
+        total = write_stream(c, lens, False)        # headers: STM32->HOST CRTP, GAP8->HOST APP, STM32->HOST CRTP
+        sock, st = stream_socket(c, 'rsock', 'S', total)
+        router = c.new(CPX + ':CPXRouter', transport(c, sock))
+        facade = c.obj(CPX + ':CPX', _router=router)
+        stop = c.raiser('StopLoop', 'schedule: receive loop pre-empted')
+        budget = {'polls': 2}
+
+        def poll(_i, args, kwargs):
+            if budget['polls'] == 0:
+                return stop()
+            budget['polls'] -= 1
+            return c.invoke((facade, 'receivePacket'), *args, **kwargs)
+        thr = c.new(TCP + ':_CPXReceiveThread', c.ext('cpx', returns={'receivePacket': poll}), c.queue('inq'), c.ext('link_error'))
+        # the receive loop's first poll registers the CRTP receiver at the router; done here with timeout 0 instead of 0.1 s
+        c.call((facade, 'receivePacket'), c.new(CPX + ':CPXFunction', 3), timeout=0)
+        c.ensure('registered-nothing-yet', "raised == 'queue.Empty'")
+        c.call((router, 'run'))
+        c.let('pos', st['pos'])
+        c.ensure('router-reads-the-whole-stream', "raised == 'Deadlock' and pos == %d" % total)
+        c.call((thr, 'run'))
+        c.ensure('receive-loop-survives', "raised == 'StopLoop' and len(calls('link_error')) == 0")
+        c.ensure('two-crtp-packets-queued', 'len(inq.queue) == 2')
+        if c.snapshot('queued', 'len(inq.queue)') == 2:
+            c.snapshot('a', 'inq.queue[0]')
+            c.snapshot('b', 'inq.queue[1]')
+            c.ensure('first-packet', 'a.port == pay0[0] >> 4 and a.channel == pay0[0] & 3 and a.header == pay0[0] | 0x0C and bytes(a.data) == b""')
+            c.ensure('second-packet', 'b.port == pay2[0] >> 4 and b.channel == pay2[0] & 3 and b.header == pay2[0] | 0x0C and '
+                                      'bytes(b.data) == bytes(pay2[1:])')
+    return downlink_e2e
+
+
+_downlink_e2e((1, 0, 2))
+_downlink_e2e((1, 0, 2, 0), '.4_frames', thorough=True)
 
 
 @contract('C18', 'router.sendPacket', [CPX + ':CPXRouter.sendPacket', CPX + ':CPX.sendPacket'],
@@ -742,29 +800,34 @@ def router_send(c):
              "is_same(sent('transport.writePacket')[0][1][0], p) and len(sent('transport.writePacket')[0][1]) == 1")
 
 
-@contract('C18', 'router.dispatch.burst', ROUTER,
-          clause='received packets are queued per function in arrival order, however many of them are waiting: a burst that nobody reads yet '
-                 'neither blocks the router nor delays or drops packets of other functions',
-          bounded='burst of 100 unread packets of one function followed by one packet of another function', unroll=300)
-def dispatch_burst(c):
-    n = 100
-    pks = [c.ext('pk%d' % i, attrs={'function': c.ext('fn%d' % i, attrs={'value': 5})}) for i in range(n)]
-    other = c.ext('pk_other', attrs={'function': c.ext('fn_other', attrs={'value': 7})})
-    rcv = [c.ext('rcv5', attrs={'value': 5}), c.ext('rcv7', attrs={'value': 7})]
-    router = c.new(CPX + ':CPXRouter', c.ext('transport', returns={'readPacket': scripted(c, pks + [other])}))
-    for j in (0, 1):
-        c.call((router, 'receivePacket'), rcv[j], timeout=0)
-        c.ensure('nothing-before-arrival-%d' % j, "raised == 'queue.Empty'")
-    c.reset_trace()
-    c.call((router, 'run'))
-    c.ensure('router-never-blocks', "raised == 'StopLoop' and len(calls()) == %d" % (n + 2))
-    c.call((router, 'receivePacket'), rcv[1], timeout=0)
-    c.let('other', other)
-    c.ensure('other-function-not-delayed', 'raised is None and is_same(result, other)')
-    got = drain(c, router, rcv[0], n, 'b')
-    c.let('got', got)
-    c.let('pks', tuple(pks))
-    c.ensure('whole-burst-in-arrival-order', 'got == %d and all(is_same(x, y) for x, y in zip((%s), pks))' % (n, ', '.join('b%d' % i for i in range(n))))
+def _burst(n, thorough=False):
+    @contract('C18', 'router.dispatch.burst' + ('' if n == 100 else '.%d' % n), ROUTER,
+              clause='received packets are queued per function in arrival order, however many of them are waiting: a burst that nobody reads yet '
+                     'neither blocks the router nor delays or drops packets of other functions',
+              bounded='burst of %d unread packets of one function followed by one packet of another function' % n, unroll=3 * n, thorough_only=thorough)
+    def dispatch_burst(c):
+        pks = [c.ext('pk%d' % i, attrs={'function': c.ext('fn%d' % i, attrs={'value': 5})}) for i in range(n)]
+        other = c.ext('pk_other', attrs={'function': c.ext('fn_other', attrs={'value': 7})})
+        rcv = [c.ext('rcv5', attrs={'value': 5}), c.ext('rcv7', attrs={'value': 7})]
+        router = c.new(CPX + ':CPXRouter', c.ext('transport', returns={'readPacket': scripted(c, pks + [other])}))
+        for j in (0, 1):
+            c.call((router, 'receivePacket'), rcv[j], timeout=0)
+            c.ensure('nothing-before-arrival-%d' % j, "raised == 'queue.Empty'")
+        c.reset_trace()
+        c.call((router, 'run'))
+        c.ensure('router-never-blocks', "raised == 'StopLoop' and len(calls()) == %d" % (n + 2))
+        c.call((router, 'receivePacket'), rcv[1], timeout=0)
+        c.let('other', other)
+        c.ensure('other-function-not-delayed', 'raised is None and is_same(result, other)')
+        got = drain(c, router, rcv[0], n, 'b')
+        c.let('got', got)
+        c.let('pks', tuple(pks))
+        c.ensure('whole-burst-in-arrival-order', 'got == %d and all(is_same(x, y) for x, y in zip((%s), pks))' % (n, ', '.join('b%d' % i for i in range(n))))
+    return dispatch_burst
+
+
+_burst(100)
+_burst(1000, thorough=True)
 
 
 # ------------------------------------------------------------------------- UART transport (the serial driver's CPX link)
@@ -778,9 +841,10 @@ def dispatch_burst(c):
 UART = [TRN + ':UARTTransport.__init__', TRN + ':UARTTransport.connect', TRN + ':UARTTransport._calcXORchecksum']
 
 
-def uart(c, stream='b""', total=0):
-    """a UARTTransport built by its real constructor: the peer's sync token (0xFF, 0x00) is scripted in front of `stream`"""
-    st = {'pos': 0}
+def uart(c, stream='b""', total=0, lock=None):
+    """a UARTTransport built by its real constructor: the peer's sync token (0xFF, 0x00) is scripted in front of `stream`;
+    lock: the clear-to-send lock the transport is to create (a `c.lock` with an explicit schedule) instead of threading.Lock"""
+    st = {'pos': 0, 'wpos': []}
     block = c.raiser('Deadlock', 'read on an exhausted serial stream blocks for ever')
     c.snapshot('uart_stream', "b'\\xff\\x00' + " + stream)
     c.reset_trace()
@@ -790,13 +854,19 @@ def uart(c, stream='b""', total=0):
         if type(n) is not int:
             from pyvc.core import OutOfSubset
             raise OutOfSubset('serial model: read size must be a concrete int, got %r' % (n,))
-        if st['pos'] + n > total + 2:
+        if st['pos'] + n > st.get('limit', total + 2):       # 'limit': how much the peer has sent so far (moved by st['on_write'])
             return block()
         lo = st['pos']
         st['pos'] = lo + n
         return c.snapshot('_chunk', 'bytes(uart_stream[%d:%d])' % (lo, lo + n))
-    port = c.ext('ser', returns={'read': read})
+    def write(_i, args, _k):
+        st['wpos'].append(st['pos'])        # how much of the peer's stream had been consumed when this write was made
+        if 'on_write' in st:
+            st['on_write'](args[0])
+    port = c.ext('ser', returns={'read': read, 'write': write})
     c.patch(TRN + ':serial', c.ext('serial', returns={'Serial': lambda *_a: port}), create=True)
+    if lock is not None:
+        c.patch(TRN + ':Lock', c.ext('Lock', returns={'()': lambda *_a: lock}))
     tx = c.new(TRN + ':UARTTransport', '/dev/ttyUSB0', 576000)
     c.let('tx', tx)
     c.require("calls('ser.') == ('ser.read', 'ser.read', 'ser.write') and bytes(sent('ser.write')[0][1][0]) == b'\\xff\\x00'")
@@ -808,12 +878,12 @@ def xor_of(expr, n):
     return ' ^ '.join(['0'] + ['%s[%d]' % (expr, i) for i in range(n)])        # same order as _calcXORchecksum
 
 
-def _uart_write(paylen):
+def _uart_write(paylen, thorough=False):
     @contract('C18', 'uart.write.len%d' % paylen, UART + [TRN + ':UARTTransport.writePacket'] + CODEC[:2],
               clause='CRTP packets tunnelled through CPX arrive unchanged (serial link): writePacket puts exactly one frame on the line - '
                      '0xFF, length of the CPX wire data, the two header bytes and the payload, XOR checksum of everything before it - for every '
                      'packet whose wire data fits the 100-byte frame limit, and holds the clear-to-send lock until the peer answers',
-              bounded='payload length %d (98 = the largest that fits)' % paylen, max_paths=1000)
+              bounded='payload length %d (98 = the largest that fits)' % paylen, max_paths=1000, thorough_only=thorough)
     def k(c):
         p = packet(c, '', paylen)
         tx, _ = uart(c)
@@ -829,6 +899,8 @@ def _uart_write(paylen):
 
 for _n in (0, 1, 30, 98):
     _uart_write(_n)
+for _n in (2, 10, 50, 64, 96, 97):
+    _uart_write(_n, thorough=True)
 
 
 @contract('C18', 'uart.write.limit', UART + [TRN + ':UARTTransport.writePacket'],
@@ -842,12 +914,13 @@ def uart_write_limit(c):
     c.ensure('refused-nothing-written', "raised is not None and calls() == ()")
 
 
-def _uart_read(paylen):
+def _uart_read(paylen, thorough=False):
     @contract('C18', 'uart.read.len%d' % paylen, UART + [TRN + ':UARTTransport.readPacket', CPX + ':CPXPacket.__init__', CODEC[2]],
               clause='CRTP packets tunnelled through CPX arrive unchanged (serial link): readPacket skips clear-to-send tokens (releasing the '
                      'writer), returns the packet of the next data frame with source, destination, function, flag and payload as encoded, and '
                      'answers it with a clear-to-send token',
-              bounded='payload length %d; one clear-to-send token, then one data frame, then the start of another frame' % paylen, max_paths=1000)
+              bounded='payload length %d; one clear-to-send token, then one data frame, then the start of another frame' % paylen, max_paths=1000,
+              thorough_only=thorough)
     def k(c):
         c.int('b0', 0, 255), c.int('fn', 0, 255)
         c.require('(b0 >> 7) == 0 and (b0 & 7) in (1, 2, 3, 4) and ((b0 >> 3) & 7) in (1, 2, 3, 4) and fn in %r' % (FUNCTIONS,))
@@ -872,13 +945,15 @@ def _uart_read(paylen):
 
 for _n in (0, 1, 30, 98):
     _uart_read(_n)
+for _n in (2, 10, 50, 64, 96, 97):
+    _uart_read(_n, thorough=True)
 
 
-def _uart_roundtrip(paylen):
+def _uart_roundtrip(paylen, thorough=False):
     @contract('C18', 'uart.roundtrip.len%d' % paylen, UART + [TRN + ':UARTTransport.writePacket', TRN + ':UARTTransport.readPacket'] + CODEC,
               clause='a CPX packet survives the serial link: what writePacket puts on the line is read back by readPacket of the peer as a '
                      'packet with the same source, destination, function, last-packet flag and payload',
-              bounded='payload length %d' % paylen, max_paths=1000)
+              bounded='payload length %d' % paylen, max_paths=1000, thorough_only=thorough)
     def k(c):
         p = packet(c, '', paylen)
         tx, _ = uart(c)
@@ -897,3 +972,981 @@ def _uart_roundtrip(paylen):
 
 for _n in (0, 30, 98):
     _uart_roundtrip(_n)
+for _n in (1, 10, 50, 64, 96, 97):
+    _uart_roundtrip(_n, thorough=True)
+
+
+
+# ========================================================================= extension round
+#
+# ------------------------------------------------------------------------- every payload length (array-window payloads)
+
+def any_packet(c, maxlen=None):
+    """a real CPXPacket with symbolic source / destination / function / flag and a payload of SYMBOLIC length (window into an SMT
+    array, `c.view`): one path covers every payload length"""
+    src, dst, fn = c.int('src', 1, 4), c.int('dst', 1, 4), c.int('fn', 1, 15)
+    c.require('fn in %r' % (FUNCTIONS,))
+    c.bool('last')
+    pay = c.view('pay', 'bytearray', maxlen=maxlen)
+    p = c.new(CPX + ':CPXPacket', function=c.new(CPX + ':CPXFunction', fn), destination=c.new(CPX + ':CPXTarget', dst),
+              source=c.new(CPX + ':CPXTarget', src), data=pay)
+    c.let('p', p)
+    c.snapshot('_', 'setattr(p, "lastPacket", last)')
+    return p
+
+
+HDR = "pack('<BB', (src << 3) | dst | (0x40 if last else 0), fn)"
+
+
+@contract('C18', 'codec.roundtrip.anylen', CODEC,
+          clause='a CPX packet survives encoding and decoding with its source, destination, function, last-packet flag and payload '
+                 'intact for every combination (4 x 4 targets, 7 functions, both flag values) and EVERY payload length (no bound: the '
+                 'codec itself has no maximum; the transports add theirs)', max_paths=1000)
+def roundtrip_anylen(c):
+    p = any_packet(c)
+    c.call((p, '_get_wire_data'))
+    c.ensure('encode-no-exception', 'raised is None')
+    c.snapshot('wire', 'result')
+    c.ensure('wire-layout', "typename(wire) == 'bytearray' and len(wire) == 2 + len(pay) and bytes(wire[0:2]) == %s and bytes(wire[2:]) == bytes(pay)" % HDR)
+    c.ensure('packet-not-modified-by-encoding', 'bytes(p.data) == bytes(pay) and p.length == len(pay) and p.lastPacket == last')
+    q = c.new(CPX + ':CPXPacket')
+    c.let('q', q)
+    c.call((q, '_set_wire_data'), c.get('wire'))
+    c.ensure('decode-no-exception', 'raised is None')
+    c.ensure('five-fields', "is_same(q.source, p.source) and is_same(q.destination, p.destination) and "
+                            "is_same(q.function, p.function) and q.lastPacket == last and q.version == 0")
+    c.ensure('field-values', 'q.source.value == src and q.destination.value == dst and q.function.value == fn')
+    c.ensure('payload-and-length', 'bytes(q.data) == bytes(pay) and q.length == len(pay)')
+
+
+@contract('C18', 'tcp.write.anylen', [TRN + ':SocketTransport.writePacket'] + CODEC[:2],
+          clause='writePacket puts exactly one frame on the stream - 16-bit little-endian length of the CPX wire data, the two header '
+                 'bytes, the payload - for every source/destination/function/flag combination and EVERY payload length 0..65533 (the '
+                 'maximum the 16-bit length can express; refusal of longer packets: tcp.write.limit)', max_paths=1000)
+def write_anylen(c):
+    p = any_packet(c, 65533)
+    tx = transport(c, c.ext('sock'))
+    c.call((tx, 'writePacket'), p)
+    c.ensure('no-exception', 'raised is None')
+    c.ensure('one-send-nothing-else', "calls() == ('sock.send',)")
+    if c.get('trace'):
+        c.snapshot('frame', "sent('sock.send')[0][1][0]")
+        c.ensure('frame', "len(frame) == 4 + len(pay) and bytes(frame[0:4]) == pack('<H', 2 + len(pay)) + %s and bytes(frame[4:]) == bytes(pay)" % HDR)
+
+
+# ------------------------------------------------------------------------- TCP transport: connection life cycle
+
+CONN = [TRN + ':SocketTransport.__init__', TRN + ':SocketTransport.connect', TRN + ':SocketTransport.disconnect']
+
+
+def socket_module(c, socks):
+    """the `socket` module of cflib.cpx.transports replaced by a stub whose socket() hands out the given connection stubs one
+    by one (a further socket() call fails the contract with IndexError)"""
+    todo = list(socks)
+
+    def make(_i, args, kwargs):
+        return todo.pop(0)
+    mod = c.ext('socket', attrs={'AF_INET': 2, 'AF_INET6': 10, 'SOCK_STREAM': 1, 'SOCK_DGRAM': 2, 'SHUT_RD': 0, 'SHUT_WR': 1, 'SHUT_RDWR': 2},
+                returns={'socket': make})
+    c.patch(TRN + ':socket', mod)
+    return mod
+
+
+@contract('C18', 'tcp.session.reconnect', CONN + SOCK + CODEC,
+          clause='a TCP byte stream carrying a sequence of packets is re-assembled into exactly that sequence: a transport built by its '
+                 'real constructor opens ONE stream connection to (host, port) and frames / re-assembles on that connection; after '
+                 'disconnect() + connect() it frames and re-assembles on the NEW connection only - bytes of the old stream that were '
+                 'not consumed (a partial frame) do not leak into the new one, the old connection is shut down and closed and is never '
+                 'used again',
+          bounded='two sessions, one packet each way per session (payload lengths 1 and 0), 3 unread bytes left in the first stream; '
+                  'all fragmentations', max_paths=2000)
+def tcp_reconnect(c):
+    tx0 = transport(c, c.ext('wsock'))          # the peer's writer (produces the two streams)
+    a = fixed_packet(c, '0', HEADERS[0], 1)
+    b = fixed_packet(c, '1', HEADERS[1], 0)
+    c.call((tx0, 'writePacket'), a)
+    c.call((tx0, 'writePacket'), b)
+    c.bytes('junk', 3)
+    c.snapshot('S0', "bytes(sent('wsock.send')[0][1][0]) + junk")
+    c.snapshot('S1', "bytes(sent('wsock.send')[1][1][0])")
+    s0, st0 = stream_socket(c, 'sock0', 'S0', 5 + 3)
+    s1, st1 = stream_socket(c, 'sock1', 'S1', 4)
+    c.let('s0', s0), c.let('s1', s1)
+    socket_module(c, [s0, s1])
+    c.reset_trace()
+    tx = c.new(TRN + ':SocketTransport', 'aideck.local', 5000)
+    c.let('tx', tx)
+    c.ensure('one-stream-connection-to-host-and-port',
+             "calls('socket.socket') == ('socket.socket',) and sent('socket.socket')[0][1] == (2, 1) and len(sent('sock0.connect')) == 1 "
+             "and sent('sock0.connect')[0][1] == (('aideck.local', 5000),) and len(calls('sock1')) == 0")
+    c.call((tx, 'writePacket'), b)
+    c.call((tx, 'readPacket'))
+    c.ensure('session0-read', 'raised is None')
+    if c.get('raised') is not None:
+        return
+    c.snapshot('r0', 'result')
+    c.ensure('session0-same-packet', same_packet(0))
+    c.ensure('session0-frame-written-on-connection-0', "len(sent('sock0.send')) == 1 and bytes(sent('sock0.send')[0][1][0]) == S1 and len(calls('sock1')) == 0")
+    c.reset_trace()
+    c.call((tx, 'disconnect'))
+    c.ensure('old-connection-shut-down-and-closed', "raised is None and calls('sock0')[-1] == 'sock0.close' and len(sent('sock0.close')) == 1 "
+             "and len(calls('sock1')) == 0")
+    c.call((tx, 'connect'))
+    c.ensure('new-connection', "raised is None and len(sent('socket.socket')) == 1 and len(sent('sock1.connect')) == 1 and "
+             "sent('sock1.connect')[0][1] == (('aideck.local', 5000),)")
+    c.reset_trace()
+    c.call((tx, 'writePacket'), a)
+    c.call((tx, 'readPacket'))
+    c.let('pos0', st0['pos']), c.let('pos1', st1['pos'])
+    c.ensure('session1-read', 'raised is None')
+    if c.get('raised') is not None:
+        return
+    c.snapshot('r1', 'result')
+    c.ensure('session1-same-packet (nothing of the old stream in front of it)', same_packet(1))
+    c.ensure('session1-uses-the-new-connection-only', "len(calls('sock0')) == 0 and pos0 == 5 and pos1 == 4 and "
+             "len(sent('sock1.send')) == 1 and bytes(sent('sock1.send')[0][1][0]) == S0[0:5]")
+
+
+
+@contract('C18', 'tcp.session.reconnect_after_interrupted_read', CONN + SOCK + CODEC,
+          clause='a TCP byte stream carrying a sequence of packets is re-assembled into exactly that sequence: a read that was cut short by '
+                 'disconnect() in the middle of a frame leaves nothing behind - after connect() the packets of the NEW stream are re-assembled '
+                 'intact from its first byte (no bytes of the broken frame in front of them)',
+          bounded='old stream: one frame with a 3-byte payload, disconnect() is called by another thread during the k-th recv of its readPacket, '
+                  'k = every recv of every fragmentation (explicit schedule: inside sock.recv, which still returns its chunk); new stream: one '
+                  'frame with a 1-byte payload, every recv returns as much as it may', max_paths=2000)
+def tcp_reconnect_after_interrupted_read(c):
+    tx0 = transport(c, c.ext('wsock'))
+    c.call((tx0, 'writePacket'), fixed_packet(c, '0', HEADERS[0], 3))
+    c.call((tx0, 'writePacket'), fixed_packet(c, '1', HEADERS[1], 1))
+    c.snapshot('S0', "bytes(sent('wsock.send')[0][1][0])")
+    c.snapshot('S1', "bytes(sent('wsock.send')[1][1][0])")
+    s0, st0 = stream_socket(c, 'sock0', 'S0', 7)
+    s1, st1 = stream_socket(c, 'sock1', 'S1', 5, greedy=True)
+    when = c.choice('disconnect_during_recv', list(range(7)))
+    holder = {'n': 0}
+    inner = s0.returns['recv'] if c.backend == 'sym' else s0.__dict__['_returns']['recv']
+
+    def recv(i_, args, kwargs):
+        if holder['n'] == when:
+            c.invoke((holder['tx'], 'disconnect'))
+        holder['n'] += 1
+        return inner(i_, args, kwargs)
+    (s0.returns if c.backend == 'sym' else s0.__dict__['_returns'])['recv'] = recv
+    socket_module(c, [s0, s1])
+    tx = holder['tx'] = c.new(TRN + ':SocketTransport', 'aideck.local', 5000)
+    c.call((tx, 'readPacket'))                      # cut short (whatever it returns or raises is the subject of cpx.close.during_read.*)
+    c.require('%d > %d' % (holder['n'], when))      # schedules in which the frame was complete before the k-th recv: no interruption
+    c.reset_trace()
+    c.call((tx, 'connect'))
+    c.ensure('new-connection', "raised is None and len(sent('sock1.connect')) == 1")
+    c.call((tx, 'readPacket'))
+    c.let('pos1', st1['pos'])
+    c.ensure('new-stream-read', 'raised is None')
+    if c.get('raised') is None:
+        c.snapshot('r1', 'result')
+        c.ensure('first-packet-of-the-new-stream-intact', same_packet(1))
+        c.ensure('consumed-exactly-its-frame-old-connection-untouched', "pos1 == 5 and len(calls('sock0')) == 0")
+
+
+# ------------------------------------------------------------------------- router: transactions and explicit schedules
+#
+# The router thread (CPXRouter.run) and the client threads (receivePacket / makeTransaction) run concurrently in the library.  Here
+# the OTHER thread's action is put inside a stub call of the thread under analysis (an explicit schedule): the router dispatches its
+# scripted arrivals while the client is inside transport.writePacket, or a client registers / drains between two arrivals, inside
+# transport.readPacket.  queue.Queue is replaced by the sequential queue model in both back ends, so that waiting for ever is
+# reported at once (pseudo exception Deadlock) instead of blocking the native replay.
+
+def model_queues(c):
+    made = []
+
+    def mkq(_i, args, kwargs):
+        made.append(c.queue('rxq%d' % len(made)))
+        return made[-1]
+    c.patch(CPX + ':queue', c.ext('queue', returns={'Queue': mkq}))
+    return made
+
+
+def stub_packet(c, name, fval):
+    return c.ext(name, attrs={'function': c.ext(name + '_fn', attrs={'value': fval})})
+
+
+def _transaction(when):
+    @contract('C18', 'router.makeTransaction.' + when, ROUTER + [CPX + ':CPXRouter.makeTransaction', CPX + ':CPXRouter.sendPacket', CPX + ':CPX.makeTransaction'],
+              clause='received packets are queued per function in arrival order and handed only to receivers of that function: a '
+                     'transaction writes its packet exactly once and returns the FIRST not yet delivered packet of the packet\'s own function; '
+                     'packets of other functions that arrive meanwhile are not returned and stay queued for their receivers, a second '
+                     'packet of the function stays queued for the next receive; for all function values 0..63',
+              bounded='the function was registered before; three arrivals (other function, same function, same function) dispatched by the '
+                      'router ' + {'during-send': 'while the client is still inside transport.writePacket (earliest schedule)',
+                                   'before-send': 'before the transaction starts (they are already waiting)'}[when])
+    def k(c):
+        c.int('f', 0, 63), c.int('g', 0, 63)
+        c.require('f != g')
+        model_queues(c)
+        x, y, z = stub_packet(c, 'x', c.get('g')), stub_packet(c, 'y', c.get('f')), stub_packet(c, 'z', c.get('f'))
+        c.let('x', x), c.let('y', y), c.let('z', z)
+        p = stub_packet(c, 'p', c.get('f'))
+        c.let('p', p)
+        holder = {}
+
+        def router_runs(*_a):
+            holder['ended'] = c.invoke_catch((holder['router'], 'run'))
+        tr = c.ext('transport', returns={'readPacket': scripted(c, [x, y, z]), 'writePacket': router_runs if when == 'during-send' else None})
+        router = holder['router'] = c.new(CPX + ':CPXRouter', tr)
+        facade = c.obj(CPX + ':CPX', _router=router)
+        fn_f, fn_g = c.ext('fn_f', attrs={'value': c.get('f')}), c.ext('fn_g', attrs={'value': c.get('g')})
+        for fn in (fn_f, fn_g):
+            c.call((router, 'receivePacket'), fn, timeout=0)
+            c.ensure('registered-nothing-yet', "raised == 'queue.Empty'")
+        if when == 'before-send':
+            router_runs()
+        c.reset_trace()
+        c.call((facade, 'makeTransaction'), p)
+        c.ensure('returns-first-packet-of-its-function', 'raised is None and is_same(result, y)')
+        c.ensure('request-written-exactly-once', "len(sent('transport.writePacket')) == 1 and is_same(sent('transport.writePacket')[0][1][0], p)")
+        c.let('ended', holder.get('ended'))
+        c.ensure('router-dispatched-the-three-arrivals', "ended == 'StopLoop'")
+        c.call((router, 'receivePacket'), fn_f, timeout=0)
+        c.ensure('second-packet-of-the-function-is-next', 'raised is None and is_same(result, z)')
+        c.call((router, 'receivePacket'), fn_f, timeout=0)
+        c.ensure('then-nothing', "raised == 'queue.Empty'")
+        c.call((router, 'receivePacket'), fn_g, timeout=0)
+        c.ensure('other-function-packet-kept-for-its-receiver', 'raised is None and is_same(result, x)')
+    return k
+
+
+_transaction('during-send')
+_transaction('before-send')
+
+
+def _interleaved(n, thorough=False):
+    @contract('C18', 'router.dispatch.interleaved' + ('' if n == 4 else '.%dpk' % n), ROUTER,
+              clause='received packets are queued per function in arrival order and handed only to receivers of that function, also when the '
+                     'receiver drains its queue WHILE the router keeps dispatching: what a receiver gets over time is exactly the arrival-order '
+                     'subsequence of its function, nothing twice, nothing lost; for all function values 0..63',
+              bounded='%d arrivals with symbolic functions; the receiver of r polls (timeout 0) between any two arrivals, inside '
+                      'transport.readPacket (explicit schedule), and drains at the end' % n, max_paths=3000, thorough_only=thorough)
+    def dispatch_interleaved(c):
+        model_queues(c)
+        fs = [c.int('f%d' % i, 0, 63) for i in range(n)]
+        pks = [stub_packet(c, 'pk%d' % i, fs[i]) for i in range(n)]
+        c.int('r', 0, 63)
+        rcv = c.ext('rcv', attrs={'value': c.get('r')})
+        holder = {'got': []}
+        feed = scripted(c, pks)
+
+        def read(*_a):
+            # the client thread polls once before the next arrival is read
+            if 'router' in holder:
+                try_get(holder)
+            return feed()
+
+        def try_get(h):
+            c.call((h['router'], 'receivePacket'), rcv, timeout=0)
+            if c.get('raised') is None:
+                h['got'].append(c.get('result'))
+        router = c.new(CPX + ':CPXRouter', c.ext('transport', returns={'readPacket': read}))
+        c.call((router, 'receivePacket'), rcv, timeout=0)
+        c.ensure('registered-nothing-yet', "raised == 'queue.Empty'")
+        holder['router'] = router
+        ended = c.invoke_catch((router, 'run'))
+        c.let('ended', ended)
+        c.ensure('router-dispatched-all-arrivals', "ended == 'StopLoop'")
+        for _ in range(n + 1):
+            try_get(holder)
+        c.ensure('ends-with-empty-queue', "raised == 'queue.Empty'")
+        got = holder['got']
+        c.let('got', tuple(got))
+        c.let('pks', tuple(pks))
+        c.ensure('gets-every-packet-of-its-function-once', 'len(got) == ' + ' + '.join('(f%d == r)' % i for i in range(n)))
+        for m in range(len(got)):
+            for i in range(n):
+                before = ' + '.join(['0'] + ['(f%d == r)' % e for e in range(i)])
+                c.ensure('arrival-order-%d-%d' % (m, i), 'implies(f%d == r and (%s) == %d, is_same(got[%d], pks[%d]))' % (i, before, m, m, i))
+    return dispatch_interleaved
+
+
+_interleaved(4)
+_interleaved(6, thorough=True)
+
+
+def _late_registration(n, thorough=False):
+    @contract('C18', 'router.dispatch.late_registration' + ('' if n == 4 else '.%dpk' % n), ROUTER,
+              clause='received packets are queued per function in arrival order and handed only to receivers of that function: a receiver that '
+                     'registers while the router is already running gets exactly the packets of its function that arrive AFTER its registration, '
+                     'in arrival order (packets that arrived before nobody had asked for their function are dropped - behaviour of the code, stated)',
+              bounded='%d arrivals of one function; the receiver registers (first receivePacket, timeout 0) before arrival k, k = 0..%d, '
+                      'inside transport.readPacket (explicit schedule)' % (n, n), thorough_only=thorough)
+    def dispatch_late_registration(c):
+        model_queues(c)
+        c.int('f', 0, 63)
+        pks = [stub_packet(c, 'pk%d' % i, c.get('f')) for i in range(n)]
+        k = c.choice('registers_before_arrival', list(range(n + 1)))
+        rcv = c.ext('rcv', attrs={'value': c.get('f')})
+        holder = {'reads': 0, 'first': None}
+        feed = scripted(c, pks)
+
+        def read(*_a):
+            if holder['reads'] == k:
+                holder['first'] = c.invoke_catch((holder['router'], 'receivePacket'), rcv, timeout=0)
+            holder['reads'] += 1
+            return feed()
+        router = holder['router'] = c.new(CPX + ':CPXRouter', c.ext('transport', returns={'readPacket': read}))
+        ended = c.invoke_catch((router, 'run'))
+        c.let('ended', ended), c.let('first', holder['first'])
+        c.ensure('router-dispatched-all-arrivals', "ended == 'StopLoop' and first == 'queue.Empty'")
+        got = drain(c, router, rcv, n, 'late')
+        c.let('got', got)
+        c.let('pks', tuple(pks))
+        c.ensure('gets-exactly-the-arrivals-after-registration', "got == %d and raised == 'queue.Empty'" % (n - k))
+        for m in range(min(got, n - k)):
+            c.ensure('in-arrival-order-%d' % m, 'is_same(late%d, pks[%d])' % (m, k + m))
+    return dispatch_late_registration
+
+
+_late_registration(4)
+_late_registration(8, thorough=True)
+
+
+def waiting_queues(c, while_waiting):
+    """queue.Queue of cflib.cpx replaced by a FIFO model of this file whose blocking get(), on an empty queue, first lets the other
+    threads run (`while_waiting()`); if the queue is still empty it blocks for ever (Deadlock) without time-out and gives up
+    (queue.Empty) with one; a get with time-out 0 or block=False polls"""
+    empty = c.raiser('queue.Empty')
+    block = c.raiser('Deadlock', 'get on a queue that stays empty')
+    made = []
+
+    def mkq(_i, args, kwargs):
+        items = []
+
+        def put(_i2, a, k):
+            items.append(a[0])
+
+        def get(_i2, a, k):
+            blocking = a[0] if a else k.get('block', True)
+            timeout = a[1] if len(a) > 1 else k.get('timeout')
+            if not items and blocking is True and (timeout is None or timeout > 0):
+                while_waiting()
+                if not items and timeout is None:
+                    return block()
+            if not items:
+                return empty()
+            return items.pop(0)
+        made.append(c.ext('rxq%d' % len(made), returns={'put': put, 'get': get}))
+        return made[-1]
+    c.patch(CPX + ':queue', c.ext('queue', returns={'Queue': mkq}))
+
+
+@contract('C18', 'router.makeTransaction.answer_while_waiting', ROUTER + [CPX + ':CPXRouter.makeTransaction', CPX + ':CPXRouter.sendPacket', CPX + ':CPX.makeTransaction'],
+          clause='received packets are queued per function in arrival order and handed only to receivers of that function: a transaction whose '
+                 'answer has not arrived when the request has been written WAITS for it (it does not give up or return something else) and '
+                 'returns the first packet of its function that arrives; packets of other functions arriving first are kept for their receivers',
+          bounded='the function was registered before; the router dispatches the arrivals (other function, same function) only while the client '
+                  'waits inside the queue get of receivePacket (explicit schedule, FIFO queue model of this file)')
+def transaction_waits(c):
+    c.int('f', 0, 63), c.int('g', 0, 63)
+    c.require('f != g')
+    x, y = stub_packet(c, 'x', c.get('g')), stub_packet(c, 'y', c.get('f'))
+    p = stub_packet(c, 'p', c.get('f'))
+    c.let('x', x), c.let('y', y), c.let('p', p)
+    holder = {'sent_before_wait': None}
+
+    def router_runs():
+        if 'router' in holder and holder['sent_before_wait'] is None:
+            holder['sent_before_wait'] = holder.get('writes', 0)
+            holder['ended'] = c.invoke_catch((holder['router'], 'run'))
+    waiting_queues(c, router_runs)
+
+    def written(*_a):
+        holder['writes'] = holder.get('writes', 0) + 1
+    tr = c.ext('transport', returns={'readPacket': scripted(c, [x, y]), 'writePacket': written})
+    router = c.new(CPX + ':CPXRouter', tr)
+    facade = c.obj(CPX + ':CPX', _router=router)
+    fn_f, fn_g = c.ext('fn_f', attrs={'value': c.get('f')}), c.ext('fn_g', attrs={'value': c.get('g')})
+    for fn in (fn_f, fn_g):
+        c.call((router, 'receivePacket'), fn, timeout=0)
+        c.ensure('registered-nothing-yet', "raised == 'queue.Empty'")
+    holder['router'] = router
+    c.reset_trace()
+    c.call((facade, 'makeTransaction'), p)
+    c.let('sent_before_wait', holder['sent_before_wait']), c.let('ended', holder.get('ended'))
+    c.ensure('waited-and-got-the-answer', 'raised is None and is_same(result, y)')
+    c.ensure('request-was-on-its-way-before-the-wait-and-written-once', "sent_before_wait == 1 and len(sent('transport.writePacket')) == 1 and "
+             "is_same(sent('transport.writePacket')[0][1][0], p) and ended == 'StopLoop'")
+    c.call((router, 'receivePacket'), fn_g, timeout=0)
+    c.ensure('other-function-packet-kept-for-its-receiver', 'raised is None and is_same(result, x)')
+
+
+@contract('C18', 'router.makeTransaction.first_use_of_function', ROUTER + [CPX + ':CPXRouter.makeTransaction', CPX + ':CPXRouter.sendPacket', CPX + ':CPX.makeTransaction'],
+          clause='received packets are queued per function in arrival order and handed to receivers of that function: the answer to a '
+                 'transaction is handed to the transaction also when this is the first use of the function on this router and the router '
+                 'thread reads the answer before the client thread has returned from the transport write',
+          bounded='one arrival (the answer), dispatched by the router while the client is still inside transport.writePacket (explicit schedule)',
+          thorough_only=True)
+def transaction_first_use(c):
+    """RED ON THE UNCHANGED TREE (candidate finding, see the report of the extension round): makeTransaction creates the queue of
+    the function only AFTER the request has been written (receivePacket does it), so an answer the router thread reads before
+    that is dropped by run() ("function not in _rxQueues") and the transaction waits for ever."""
+    c.int('f', 0, 63)
+    model_queues(c)
+    y = stub_packet(c, 'y', c.get('f'))
+    p = stub_packet(c, 'p', c.get('f'))
+    c.let('y', y), c.let('p', p)
+    holder = {}
+
+    def router_runs(*_a):
+        holder['ended'] = c.invoke_catch((holder['router'], 'run'))
+    tr = c.ext('transport', returns={'readPacket': scripted(c, [y]), 'writePacket': router_runs})
+    router = holder['router'] = c.new(CPX + ':CPXRouter', tr)
+    facade = c.obj(CPX + ':CPX', _router=router)
+    c.call((facade, 'makeTransaction'), p)
+    c.ensure('answer-is-handed-to-the-transaction', 'raised is None and is_same(result, y)')
+
+
+# ------------------------------------------------------------------------- closing the link
+
+CLOSE = [CPX + ':CPX.close', CPX + ':CPXRouter.transport', TRN + ':SocketTransport.disconnect']
+
+
+@contract('C18', 'cpx.close', CLOSE + ROUTER + CONN + SOCK + CODEC,
+          clause='closing the link ends the re-assembly: CPX.close() shuts down and closes the connection of the transport exactly once and '
+                 'the router loop terminates (its next turn does not touch the closed connection); packets dispatched before the close '
+                 'stay available to their receivers, intact and in order',
+          bounded='one sequential schedule: two frames (payload lengths 1 and 0, function CRTP) are dispatched, then the loop blocks on the '
+                  'exhausted stream, then close(), then the loop is resumed; all fragmentations', max_paths=2000)
+def cpx_close(c):
+    lens = (1, 0)
+    tx0 = transport(c, c.ext('wsock'))
+    for i, n in enumerate(lens):
+        c.call((tx0, 'writePacket'), fixed_packet(c, str(i), HEADERS[0], n))
+    c.snapshot('S', "bytes(sent('wsock.send')[0][1][0]) + bytes(sent('wsock.send')[1][1][0])")
+    sock, st = stream_socket(c, 'sock0', 'S', 9)
+    socket_module(c, [sock])
+    router = c.new(CPX + ':CPXRouter', c.new(TRN + ':SocketTransport', 'aideck.local', 5000))
+    facade = c.obj(CPX + ':CPX', _router=router)
+    crtp = c.new(CPX + ':CPXFunction', 3)
+    c.call((facade, 'receivePacket'), crtp, timeout=0)
+    c.call((router, 'run'))
+    c.let('pos', st['pos'])
+    c.ensure('loop-reads-the-whole-stream-then-blocks', "raised == 'Deadlock' and pos == 9")
+    c.reset_trace()
+    c.call((facade, 'close'))
+    c.ensure('connection-closed-exactly-once', "raised is None and len(sent('sock0.close')) == 1 and calls('sock0')[-1] == 'sock0.close'")
+    c.reset_trace()
+    c.call((router, 'run'))
+    c.ensure('router-loop-terminates-without-touching-the-closed-connection', "raised is None and len(calls('sock0')) == 0")
+    got = drain(c, router, crtp, 2, 'r')
+    c.let('got', got)
+    c.ensure('both-packets-still-delivered', "got == 2 and raised == 'queue.Empty'")
+    for i in range(min(got, 2)):
+        c.ensure('packet-%d-intact' % i, same_packet(i))
+
+
+def _close_during_read(lens):
+    total = sum(n + 4 for n in lens)
+
+    @contract('C18', 'cpx.close.during_read.' + '_'.join(str(n) for n in lens), CLOSE + ROUTER + CONN + SOCK + CODEC,
+              clause='a TCP byte stream carrying a sequence of packets is re-assembled into exactly that sequence however the stream is '
+                     'fragmented - also when the link is closed in the middle of a frame: every packet handed to a receiver is a packet of '
+                     'the stream with fields and payload intact, in order (a prefix of the sequence); a frame cut short by close() is never '
+                     'delivered as a (truncated) packet; the router loop terminates',
+              bounded='frames with payload lengths %s (function CRTP); close() is called by the application thread during the k-th recv, '
+                      'k = every recv of every fragmentation (explicit schedule: inside sock.recv, which then still returns its chunk)' % (list(lens),),
+              max_paths=6000, thorough_only=True)
+    def k(c):
+        """RED ON THE UNCHANGED TREE (candidate finding, see the report of the extension round): disconnect() sets _socket = None,
+        _readData leaves its loop with the bytes it has, and readPacket decodes a frame whose payload is cut short."""
+        tx0 = transport(c, c.ext('wsock'))
+        for i, n in enumerate(lens):
+            c.call((tx0, 'writePacket'), fixed_packet(c, str(i), HEADERS[0], n))
+        c.snapshot('S', ' + '.join("bytes(sent('wsock.send')[%d][1][0])" % i for i in range(len(lens))))
+        sock, st = stream_socket(c, 'sock0', 'S', total)
+        inner = sock.returns['recv'] if c.backend == 'sym' else sock.__dict__['_returns']['recv']
+        when = c.choice('close_during_recv', list(range(total)))
+        holder = {'n': 0, 'closed': False}
+
+        def recv(i_, args, kwargs):
+            if holder['closed']:
+                return c.raiser('OSError', 'recv on a closed socket')()
+            if holder['n'] == when:
+                holder['closed'] = True
+                c.invoke((holder['facade'], 'close'))
+            holder['n'] += 1
+            return inner(i_, args, kwargs)
+        if c.backend == 'sym':
+            sock.returns['recv'] = recv
+        else:
+            sock.__dict__['_returns']['recv'] = recv
+        socket_module(c, [sock])
+        router = c.new(CPX + ':CPXRouter', c.new(TRN + ':SocketTransport', 'aideck.local', 5000))
+        facade = holder['facade'] = c.obj(CPX + ':CPX', _router=router)
+        crtp = c.new(CPX + ':CPXFunction', 3)
+        c.call((facade, 'receivePacket'), crtp, timeout=0)
+        c.call((router, 'run'))
+        c.require("raised != 'Deadlock'")           # schedules in which the stream ended before the k-th recv: no close happened
+        c.ensure('router-loop-terminates', 'raised is None')
+        got = drain(c, router, crtp, len(lens), 'r')
+        c.let('got', got)
+        c.ensure('at-most-the-packets-of-the-stream', "got <= %d and raised == 'queue.Empty'" % len(lens))
+        for i in range(min(got, len(lens))):
+            c.ensure('delivered-packet-%d-is-packet-%d-of-the-stream-intact' % (i, i), same_packet(i))
+    return k
+
+
+_close_during_read((1, 3))
+
+
+# ------------------------------------------------------------------------- the application's end of the downlink
+
+def _receive_packet(mod, cls):
+    short = mod.rsplit('.', 1)[1]
+
+    @contract('C18', '%s.receive_packet' % cls, [mod + ':%s.receive_packet' % cls],
+              clause='CRTP packets tunnelled through CPX arrive unchanged (last hop of the downlink): receive_packet hands the application '
+                     'the packets the receive thread queued - the identical objects, each exactly once, in arrival order - for every wait '
+                     'mode (0 = poll, negative = wait for ever, positive = wait that long); an empty queue gives None in the modes that may '
+                     'give up and keeps waiting (never a made-up packet) in the wait-for-ever mode',
+              bounded='three queued packets, four calls in one mode; wait values: 0, any negative, any positive number')
+    def k(c):
+        mode = c.choice('mode', ['poll', 'forever', 'timed', 'default'])
+        if mode == 'forever':
+            c.int('wait', -1000, -1)
+        elif mode == 'timed':
+            c.int('wait', 1, 1000)
+        pks = [c.ext('crtp%d' % i) for i in range(3)]
+        c.let('pks', tuple(pks))
+        drv = c.new(mod + ':' + cls)
+        c.let('drv', drv)
+        c.let('inq', c.queue('inq', pks))
+        c.snapshot('_', 'setattr(drv, "in_queue", inq)')
+        args = (0,) if mode == 'poll' else () if mode == 'default' else (c.get('wait'),)
+        for i in range(3):
+            c.call((drv, 'receive_packet'), *args)
+            c.ensure('packet-%d-in-arrival-order' % i, 'raised is None and is_same(result, pks[%d]) and inq.qsize() == %d' % (i, 2 - i))
+        c.call((drv, 'receive_packet'), *args)
+        if mode == 'forever':
+            c.ensure('keeps-waiting', "raised == 'Deadlock'")
+        else:
+            c.ensure('empty-queue-gives-None', 'raised is None and result is None')
+    return k
+
+
+_receive_packet(TCP, 'TcpDriver')
+_receive_packet(SER, 'SerialDriver')
+
+
+# ------------------------------------------------------------------------- UART flow control: writer and reader thread (explicit schedule)
+
+@contract('C18', 'uart.write.second_frame_waits_for_clear_to_send', UART + [TRN + ':UARTTransport.writePacket', TRN + ':UARTTransport.readPacket'] + CODEC[:2],
+          clause='CRTP packets tunnelled through CPX arrive unchanged (serial link, flow control): a second packet is put on the line only '
+                 'after the peer answered the first frame with a clear-to-send token and the reader thread consumed it; then it goes out as '
+                 'one intact frame, after the first; without the token nothing more is written (the writer keeps waiting)',
+          bounded='two packets (payload lengths 1 and 2); schedule: while the writer waits for the clear-to-send lock the reader thread '
+                  'runs readPacket on the peer\'s bytes (token or nothing) until it blocks on the port', max_paths=200)
+def uart_second_frame(c):
+    answered = c.choice('peer_sends_clear_to_send', [True, False])
+    a = fixed_packet(c, '0', HEADERS[1], 1)
+    b = fixed_packet(c, '1', HEADERS[3], 2)
+    holder = {'runs': 0}
+
+    def reader_thread():
+        holder['runs'] += 1
+        holder['reader'] = c.invoke_catch((holder['tx'], 'readPacket'))
+    lk = c.lock('cts', on_block=reader_thread)
+    c.let('cts', lk)
+    tx, st = uart(c, "b'\\xff\\x00'" if answered else 'b""', 2 if answered else 0, lock=lk)
+    holder['tx'] = tx
+    c.call((tx, 'writePacket'), a)
+    c.ensure('first-frame-written-at-once', "raised is None and len(sent('ser.write')) == 1 and cts.locked()")
+    c.call((tx, 'writePacket'), b)
+    c.let('runs', holder['runs']), c.let('reader', holder.get('reader')), c.let('wpos', tuple(st['wpos'][1:]))
+    c.ensure('writer-had-to-wait-reader-ran-until-it-blocked-on-the-port', "runs == 1 and reader == 'Deadlock'")
+    c.snapshot('f0', "bytes(sent('ser.write')[0][1][0])")
+    c.ensure('first-frame-intact', "f0[:-1] == pack('<BBBB', 0xFF, 3, (%d << 3) | %d, %d) + bytes(pay0) and f0[-1] == (%s)" % (
+        HEADERS[1][0], HEADERS[1][1], HEADERS[1][2], xor_of('f0', 5)))
+    if answered:
+        c.ensure('second-frame-written-after-the-token-was-consumed', "raised is None and len(sent('ser.write')) == 2 and wpos == (2, 4)")
+        if len(c.get('trace')) and c.snapshot('nw', "len(sent('ser.write'))") == 2:
+            c.snapshot('f1', "bytes(sent('ser.write')[1][1][0])")
+            c.ensure('second-frame-intact', "f1[:-1] == pack('<BBBB', 0xFF, 4, (%d << 3) | %d | 0x40, %d) + bytes(pay1) and f1[-1] == (%s)" % (
+                HEADERS[3][0], HEADERS[3][1], HEADERS[3][2], xor_of('f1', 6)))
+        c.ensure('waits-for-the-next-token', 'cts.locked()')
+    else:
+        c.ensure('nothing-more-written-writer-keeps-waiting', "raised == 'Deadlock' and len(sent('ser.write')) == 1 and wpos == (2,)")
+
+
+# ------------------------------------------------------------------------- whole sessions of the drivers (connect - use - close - connect)
+
+def budgeted_facade(c, modref, holder):
+    """`CPX` of a driver module replaced by a factory that builds the REAL facade (router thread recorded, not started) and hands the
+    driver a forwarding stub: sendPacket / close / makeTransaction go to the real facade unchanged; receivePacket is forwarded while
+    holder['polls'] > 0 and afterwards leaves the endless receive loop with StopLoop (the schedule: receive thread pre-empted)."""
+    stop = c.raiser('StopLoop', 'schedule: receive loop pre-empted')
+
+    def make(_i, args, kwargs):
+        real = c.new(CPX + ':CPX', *args, **kwargs)
+        holder.setdefault('facades', []).append(real)
+
+        def fwd(meth):
+            return lambda _i2, a, k: c.invoke((real, meth), *a, **k)
+
+        def poll(_i2, a, k):
+            if holder.get('polls', 0) <= 0:
+                return stop()
+            holder['polls'] -= 1
+            return c.invoke((real, 'receivePacket'), *a, **k)
+        return c.ext('cpx%d' % (len(holder['facades']) - 1),
+                     returns={'sendPacket': fwd('sendPacket'), 'close': fwd('close'), 'makeTransaction': fwd('makeTransaction'), 'receivePacket': poll})
+    c.patch(modref + ':CPX', c.ext('CPX', returns={'()': make}))
+
+
+def run_thread(c, holder, thr, polls):
+    holder['polls'] = polls
+    return c.invoke_catch((thr, 'run'))
+
+
+SESSION_TCP = [TCP + ':TcpDriver.__init__', TCP + ':TcpDriver.connect', TCP + ':TcpDriver.send_packet', TCP + ':TcpDriver.receive_packet', TCP + ':TcpDriver.close',
+               TCP + ':_CPXReceiveThread.__init__', TCP + ':_CPXReceiveThread.run', TCP + ':_CPXReceiveThread.stop', CPX + ':CPX.__init__',
+               CPX + ':CPX.sendPacket', CPX + ':CPX.receivePacket', CPX + ':CPX.close', CPX + ':CPXRouter.transport', CPX + ':CPXRouter.sendPacket',
+               STK + ':CRTPPacket.__init__'] + ROUTER + CONN + SOCK + CODEC
+
+
+@contract('C18', 'tcpdriver.session', SESSION_TCP,
+          clause='CRTP packets tunnelled through CPX arrive with header and payload unchanged in both directions, over whole sessions of the '
+                 'real driver (real facade, router, TCP transport on a stubbed socket module): connect opens one connection to the host and '
+                 'port of the URI, starts the router thread and the receive thread once each and switches the peer\'s bridge on with the first '
+                 'frame; an uplink packet is the next frame; downlink frames reach receive_packet in order, intact; close stops the receive '
+                 'thread (it polls no more), ends the router loop and closes the connection; a second connect works on a NEW connection, '
+                 'and the application then receives exactly the packets of the new stream (a packet of the old session that was never '
+                 'fetched is not delivered into the new one)',
+          bounded='one sequential schedule per step (receive thread polls once to register, router loop runs until the stream is exhausted, receive '
+                  'thread polls twice), recv returns as much as it may (fragmentation: tcp.reassembly.*, pipeline.*); session 0: frames CRTP[h, d], '
+                  'APP[], CRTP[h], CRTP[h] - the application fetches one, one stays in the driver\'s queue, one in the router\'s; session 1: '
+                  'CRTP[h, d, d]; one uplink packet with any header and two payload bytes', max_paths=200)
+def tcp_session(c):
+    c.virtual_time()
+    peer = transport(c, c.ext('wsock'))         # the peer's writer
+    lens = (2, 0, 1, 1, 3)
+    heads = (HEADERS[0], HEADERS[1], HEADERS[2], HEADERS[0], HEADERS[0])
+    for i, n in enumerate(lens):
+        c.call((peer, 'writePacket'), fixed_packet(c, str(i), heads[i], n))
+    c.snapshot('S0', ' + '.join("bytes(sent('wsock.send')[%d][1][0])" % i for i in range(4)))
+    c.snapshot('S1', "bytes(sent('wsock.send')[4][1][0])")
+    s0, st0 = stream_socket(c, 'sock0', 'S0', 6 + 4 + 5 + 5, greedy=True)
+    s1, st1 = stream_socket(c, 'sock1', 'S1', 7, greedy=True)
+    socket_module(c, [s0, s1])
+    holder = {}
+    budgeted_facade(c, TCP, holder)
+    c.int('h', 0, 255)
+    up = c.new(STK + ':CRTPPacket', c.get('h'), c.bytes('data', 2))
+    link_error = c.ext('link_error')
+    drv = c.new(TCP + ':TcpDriver')
+    c.let('drv', drv)
+    c.reset_trace()
+
+    def connect(session):
+        c.call((drv, 'connect'), 'tcp://192.168.4.1:5123', None, link_error)
+        sk = 'sock%d' % session
+        c.ensure('s%d-connect-no-exception' % session, 'raised is None')
+        c.ensure('s%d-one-connection-to-the-host-and-port-of-the-uri' % session,
+                 "len(sent('socket.socket')) == 1 and sent('socket.socket')[0][1] == (2, 1) and sent('%s.connect')[0][1] == (('192.168.4.1', 5123),)" % sk)
+        c.ensure('s%d-router-and-receive-thread-started-once-each' % session,
+                 "len(sent('thread:CPXRouter.start')) == 1 and len(sent('thread:_CPXReceiveThread.start')) == 1")
+        c.ensure('s%d-first-frame-switches-the-bridge-to-cpx' % session,
+                 "len(sent('%s.send')) >= 1 and bytes(sent('%s.send')[0][1][0]) == pack('<HBBBB', 4, (3 << 3) | 1, 1, 0x21, 0x01)" % (sk, sk))
+        router = c.snapshot('router%d' % session, "sent('thread:CPXRouter.start')[0][1][0]")
+        thr = c.snapshot('thr%d' % session, "sent('thread:_CPXReceiveThread.start')[0][1][0]")
+        return router, thr
+
+    router, thr = connect(0)
+    c.reset_trace()
+    c.call((drv, 'send_packet'), up)
+    c.ensure('s0-uplink-is-the-next-frame', "raised is None and calls('sock0') == ('sock0.send',) and "
+             "bytes(sent('sock0.send')[0][1][0]) == pack('<HBBB', 5, (3 << 3) | 1, 3, h | 0x0C) + data")
+    c.let('e1', run_thread(c, holder, thr, 1))                  # registers the CRTP receiver, nothing there yet
+    c.call((router, 'run'))
+    c.let('pos0', st0['pos'])
+    c.ensure('s0-router-reads-the-whole-stream', "raised == 'Deadlock' and pos0 == 20")
+    c.let('e2', run_thread(c, holder, thr, 2))
+    c.ensure('s0-receive-loop-survives', "e1 == 'StopLoop' and e2 == 'StopLoop' and len(calls('link_error')) == 0")
+    c.call((drv, 'receive_packet'), 0)
+    c.snapshot('a', 'result')
+    c.ensure('s0-first-crtp-packet', "raised is None and typename(a) == 'CRTPPacket' and a.header == pay0[0] | 0x0C and a.port == pay0[0] >> 4 and "
+             "a.channel == pay0[0] & 3 and bytes(a.data) == bytes(pay0[1:])")
+    # the second CRTP packet of session 0 (pay2) stays in the driver's queue - the application never fetched it - and the third (pay3)
+    # in the router's queue: the receive thread never fetched it
+    c.reset_trace()
+    c.call((drv, 'close'))
+    c.ensure('s0-close', "raised is None and len(sent('sock0.close')) == 1 and calls('sock0')[-1] == 'sock0.close' and "
+             "len(sent('thread:_CPXReceiveThread.join')) >= 1")
+    c.reset_trace()
+    c.let('e3', run_thread(c, holder, thr, 5))
+    c.let('left', holder['polls'])
+    c.ensure('s0-receive-thread-stopped-polls-no-more', 'e3 is None and left == 5')
+    c.call((router, 'run'))
+    c.ensure('s0-router-loop-ended-old-connection-untouched', "raised is None and len(calls('sock0')) == 0")
+    c.reset_trace()
+    router1, thr1 = connect(1)
+    c.ensure('s1-new-threads', 'not is_same(router1, router0) and not is_same(thr1, thr0)')
+    c.let('e4', run_thread(c, holder, thr1, 1))
+    c.call((router1, 'run'))
+    c.let('pos1', st1['pos'])
+    c.ensure('s1-router-reads-the-new-stream', "raised == 'Deadlock' and pos1 == 7")
+    c.let('e5', run_thread(c, holder, thr1, 2))
+    c.ensure('s1-receive-loop-survives', "e4 == 'StopLoop' and e5 == 'StopLoop' and len(calls('link_error')) == 0")
+    c.call((drv, 'receive_packet'), 0)
+    c.snapshot('b', 'result')
+    c.ensure('s1-application-gets-the-packet-of-the-new-stream', "raised is None and typename(b) == 'CRTPPacket' and b.header == pay4[0] | 0x0C and "
+             "bytes(b.data) == bytes(pay4[1:])")
+    c.call((drv, 'receive_packet'), 0)
+    c.ensure('s1-and-nothing-else', 'raised is None and result is None')
+    c.ensure('s1-old-connection-never-used-again', "len(calls('sock0')) == 0")
+
+
+SESSION_SER = [SER + ':SerialDriver.__init__', SER + ':SerialDriver.connect', SER + ':SerialDriver.get_devices', SER + ':SerialDriver.send_packet',
+               SER + ':SerialDriver.receive_packet', SER + ':SerialDriver.close', SER + ':_CPXReceiveThread.__init__', SER + ':_CPXReceiveThread.run',
+               SER + ':_CPXReceiveThread.stop', CPX + ':CPX.__init__', CPX + ':CPX.sendPacket', CPX + ':CPX.receivePacket', CPX + ':CPX.close',
+               CPX + ':CPXRouter.transport', CPX + ':CPXRouter.sendPacket', TRN + ':UARTTransport.writePacket', TRN + ':UARTTransport.readPacket',
+               TRN + ':UARTTransport.disconnect', STK + ':CRTPPacket.__init__'] + UART + ROUTER + CODEC
+
+
+def uart_frame(body):
+    """spec expression: the UART frame around the CPX wire data `body` (a spec expression of known length is not needed)"""
+    return "(lambda w: bytes([0xFF, len(w)]) + w + bytes([xor_all(bytes([0xFF, len(w)]) + w)]))(%s)" % body
+
+
+@contract('C18', 'serialdriver.session', SESSION_SER,
+          clause='CRTP packets tunnelled through CPX arrive with header and payload unchanged in both directions, over a whole session of the '
+                 'real serial driver (real facade, router, UART transport on a stubbed pyserial): connect opens the device the URI names, '
+                 'synchronises, starts the router thread and the receive thread once each and sends the two bridge set-up packets as two intact '
+                 'frames, the second only after the peer\'s clear-to-send; an uplink packet is the next frame, again after a clear-to-send; a '
+                 'downlink frame between the tokens reaches receive_packet intact and is answered with a clear-to-send; close stops the receive '
+                 'thread, ends the router loop and closes the port',
+          bounded='one schedule: whenever the writer waits for the clear-to-send lock, the receive thread polls once and the router thread reads '
+                  'what the peer has sent so far until it blocks on the port; the peer answers every data frame with one token and sends one '
+                  'CRTP frame [h, d0, d1] after the second set-up frame; one uplink packet with any header and two payload bytes', max_paths=200)
+def serial_session(c):
+    c.virtual_time()
+    c.int('hd', 0, 255), c.bytes('dd', 2)
+    c.snapshot('down_wire', "pack('<BBB', (1 << 3) | 3, 3, hd) + dd")
+    c.snapshot('down_frame', "bytes([0xFF, 5]) + down_wire + bytes([%s])" % xor_of("(bytes([0xFF, 5]) + down_wire)", 7))
+    cts = "b'\\xff\\x00'"
+    holder = {'hooks': 0, 'log': []}
+
+    def other_threads():
+        holder['hooks'] += 1
+        lk.on_block = other_threads                 # the schedule applies to every wait
+        if 'thr' not in holder:
+            holder['thr'] = c.snapshot('thr', "sent('thread:_CPXReceiveThread.start')[0][1][0]")
+            holder['router'] = c.snapshot('router', "sent('thread:CPXRouter.start')[0][1][0]")
+        holder['log'].append((run_thread(c, holder, holder['thr'], 1), c.invoke_catch((holder['router'], 'run'))))
+    lk = c.lock('cts', on_block=other_threads)
+    c.let('cts', lk)
+    port_dev = c.ext('portinfo', attrs={'name': 'ttyUSB0', 'device': '/dev/ttyUSB0'})
+    other_dev = c.ext('portinfo2', attrs={'name': '', 'device': '/dev/ttyS0'})
+    c.patch(SER + ':list_ports', c.ext('list_ports', returns={'comports': lambda *_a: c.list([other_dev, port_dev])}), create=True)
+    budgeted_facade(c, SER, holder)
+    model_queues(c)                                 # the router's queues: an empty poll gives up at once instead of after a real second
+    gates = [2 + 2, 2 + 2 + 2 + 8, 2 + 2 + 2 + 8 + 2]      # what the peer has sent after the host's 1st, 2nd, 3rd data frame
+    c.int('h', 0, 255)
+    up = c.new(STK + ':CRTPPacket', c.get('h'), c.bytes('data', 2))
+    link_error = c.ext('link_error')
+    drv = c.new(SER + ':SerialDriver')
+    c.let('drv', drv)
+
+    # uart(): builds nothing here - the driver does; it installs the port model and the lock
+    st = {'pos': 0, 'wpos': [], 'dpos': [], 'limit': 2, 'frames': 0}
+    block = c.raiser('Deadlock', 'read on a serial port with nothing to read blocks for ever')
+    c.snapshot('uart_stream', "b'\\xff\\x00' + %s + %s + down_frame + %s" % (cts, cts, cts))
+
+    def read(_i, args, _k):
+        n = args[0]
+        if type(n) is not int:
+            from pyvc.core import OutOfSubset
+            raise OutOfSubset('serial model: read size must be a concrete int, got %r' % (n,))
+        if st['pos'] + n > st['limit']:
+            return block()
+        lo = st['pos']
+        st['pos'] = lo + n
+        return c.snapshot('_chunk', 'bytes(uart_stream[%d:%d])' % (lo, lo + n))
+
+    def write(_i, args, _k):
+        st['wpos'].append(st['pos'])
+        if c.snapshot('_wl', "len(sent('ser.write')[-1][1][0])") > 2:          # a data frame: the peer answers / goes on
+            st['dpos'].append(st['pos'])
+            st['limit'] = gates[min(st['frames'], len(gates) - 1)]
+            st['frames'] += 1
+    port = c.ext('ser', returns={'read': read, 'write': write})
+    c.patch(TRN + ':serial', c.ext('serial', returns={'Serial': lambda *_a: port}), create=True)
+    c.patch(TRN + ':Lock', c.ext('Lock', returns={'()': lambda *_a: lk}))
+    c.reset_trace()
+    c.call((drv, 'connect'), 'serial://ttyUSB0', None, link_error)
+    c.ensure('connect-no-exception', 'raised is None')
+    c.ensure('opens-the-device-the-uri-names', "len(sent('serial.Serial')) == 1 and sent('serial.Serial')[0][1][0] == '/dev/ttyUSB0'")
+    c.ensure('router-and-receive-thread-started-once-each', "len(sent('thread:CPXRouter.start')) == 1 and len(sent('thread:_CPXReceiveThread.start')) == 1")
+    c.snapshot('w', "tuple(bytes(e[1][0]) for e in sent('ser.write') if len(e[1][0]) > 2)")
+    c.let('wpos', tuple(st['dpos']))             # how much of the peer's stream had been consumed when each data frame was written
+    c.ensure('two-set-up-frames-intact-in-order', "len(w) == 2 and w[0][:-1] == pack('<BBBBBB', 0xFF, 4, (3 << 3) | 1, 1, 0x21, 0x01) and "
+             "w[1][:-1] == pack('<BBBBBB', 0xFF, 4, (3 << 3) | 1, 1, 0x20, 0x01) and w[0][-1] == (%s) and w[1][-1] == (%s)" % (
+                 xor_of('w[0]', 6), xor_of('w[1]', 6)))
+    c.ensure('second-frame-only-after-the-first-clear-to-send', 'wpos == (2, 4)')
+    c.reset_trace()
+    c.call((drv, 'send_packet'), up)
+    c.snapshot('w', "tuple(bytes(e[1][0]) for e in sent('ser.write') if len(e[1][0]) > 2)")
+    c.ensure('uplink-frame-intact', "raised is None and len(w) == 1 and w[0][:-1] == pack('<BBBBB', 0xFF, 5, (3 << 3) | 1, 3, h | 0x0C) + data "
+             "and w[0][-1] == (%s)" % xor_of('w[0]', 7))
+    c.ensure('downlink-frame-answered-with-clear-to-send', "len([e for e in sent('ser.write') if bytes(e[1][0]) == b'\\xff\\x00']) == 1")
+    c.let('hooks', holder['hooks']), c.let('log', tuple(holder['log']))
+    c.ensure('schedule-ran-as-described', "hooks == 2 and log == (('StopLoop', 'Deadlock'), ('StopLoop', 'Deadlock'))")
+    thr, router = c.get('thr'), c.get('router')
+    c.let('e1', run_thread(c, holder, thr, 2))
+    c.ensure('receive-loop-survives', "e1 == 'StopLoop' and len(calls('link_error')) == 0")
+    c.call((drv, 'receive_packet'), 0)
+    c.snapshot('a', 'result')
+    c.ensure('downlink-packet-intact', "raised is None and typename(a) == 'CRTPPacket' and a.header == hd | 0x0C and a.port == hd >> 4 and "
+             "a.channel == hd & 3 and bytes(a.data) == dd")
+    c.call((drv, 'receive_packet'), 0)
+    c.ensure('and-nothing-else', 'raised is None and result is None')
+    c.reset_trace()
+    c.call((drv, 'close'))
+    c.ensure('close', "raised is None and len(sent('ser.close')) == 1 and calls('ser')[-1] == 'ser.close'")
+    c.reset_trace()
+    c.let('e2', run_thread(c, holder, thr, 5))
+    c.let('left', holder['polls'])
+    c.ensure('receive-thread-stopped-polls-no-more', 'e2 is None and left == 5')
+    c.call((router, 'run'))
+    c.ensure('router-loop-ended-port-untouched', "raised is None and len(calls('ser')) == 0")
+
+
+# ------------------------------------------------------------------------- receive threads: sequences, idle polls, errors, stop
+
+def decoded(c, wire_expr):
+    cp = c.new(CPX + ':CPXPacket')
+    c.invoke((cp, '_set_wire_data'), c.snapshot('_wire', 'bytearray(%s)' % wire_expr))
+    return cp
+
+
+def _thread_sequence(mod):
+    short = mod.rsplit('.', 1)[1]
+
+    @contract('C18', '%s.receive_thread.sequence' % short, [mod + ':_CPXReceiveThread.__init__', mod + ':_CPXReceiveThread.run', CODEC[2], STK + ':CRTPPacket.__init__'],
+              clause='downlink: a SEQUENCE of CPX packets of function CRTP becomes exactly that sequence of CRTP packets on the driver\'s queue - '
+                     'same order, headers and payloads unchanged, none twice - also when polls in between find nothing (queue.Empty), when a packet '
+                     'without a CRTP header comes in between (skipped), and when the router raises: that error is reported through the link-error '
+                     'callback exactly once, is not taken for a packet, and the packets behind it are still delivered',
+              bounded='events in this order: packet [h0, d0 d1], idle poll, packet [] (no CRTP header), packet [h1], RuntimeError from the facade, idle '
+                      'poll, packet [h2, d2]; all header bytes')
+    def k(c):
+        c.int('h0', 0, 255), c.int('h1', 0, 255), c.int('h2', 0, 255)
+        c.bytes('d0', 2), c.bytes('d2', 1)
+        hdr = "pack('<BB', (1 << 3) | 3, 3)"
+        p0 = decoded(c, hdr + " + pack('<B', h0) + d0")
+        pe = decoded(c, hdr)
+        p1 = decoded(c, hdr + " + pack('<B', h1)")
+        p2 = decoded(c, hdr + " + pack('<B', h2) + d2")
+        empty = c.raiser('queue.Empty')
+        boom = c.raiser('RuntimeError', 'router failed')
+        events = [p0, empty, pe, p1, boom, empty, p2]
+        leave = c.raiser('StopLoop', 'script exhausted')
+
+        def nxt(*_a):
+            if not events:
+                return leave()
+            e = events.pop(0)
+            return e() if callable(e) and e in (empty, boom) else e
+        thr = c.new(mod + ':_CPXReceiveThread', c.ext('cpx', returns={'receivePacket': nxt}), c.queue('inq'), c.ext('link_error'))
+        c.reset_trace()
+        c.call((thr, 'run'))
+        c.ensure('loop-survives-everything-in-the-script', "raised == 'StopLoop' and len(sent('cpx.receivePacket')) == 8")
+        c.ensure('error-reported-exactly-once', "len(calls('link_error')) == 1")
+        c.ensure('exactly-the-three-crtp-packets-queued', 'len(inq.queue) == 3')
+        if c.snapshot('queued', 'len(inq.queue)') == 3:
+            c.snapshot('a', 'inq.queue[0]'), c.snapshot('b', 'inq.queue[1]'), c.snapshot('d', 'inq.queue[2]')
+            c.ensure('in-order-headers', 'a.header == h0 | 0x0C and b.header == h1 | 0x0C and d.header == h2 | 0x0C and '
+                                         'a.port == h0 >> 4 and b.port == h1 >> 4 and d.port == h2 >> 4 and '
+                                         'a.channel == h0 & 3 and b.channel == h1 & 3 and d.channel == h2 & 3')
+            c.ensure('in-order-payloads', 'bytes(a.data) == d0 and bytes(b.data) == b"" and bytes(d.data) == d2')
+    return k
+
+
+_thread_sequence(TCP)
+_thread_sequence(SER)
+
+
+def _thread_stop(mod):
+    short = mod.rsplit('.', 1)[1]
+
+    @contract('C18', '%s.receive_thread.stop' % short, [mod + ':_CPXReceiveThread.__init__', mod + ':_CPXReceiveThread.run', mod + ':_CPXReceiveThread.stop',
+                                                        CODEC[2], STK + ':CRTPPacket.__init__'],
+              clause='downlink, stopping the link: a packet the receive thread has already taken from the router when stop() is called is still '
+                     'put on the driver\'s queue unchanged (taken from the router == delivered, nothing is lost in between); after that the loop '
+                     'ends without asking the router again; a thread stopped before it runs asks for nothing',
+              bounded='stop() is called by the application thread while the receive thread is inside cpx.receivePacket, which then returns a '
+                      'packet [h, d0 d1] (explicit schedule), or before run(); the join of the real stop() is recorded, not executed')
+    def k(c):
+        c.virtual_time()
+        c.int('h', 0, 255), c.bytes('d', 2)
+        early = c.choice('stop_before_run', [False, True])
+        p = decoded(c, "pack('<BBB', (1 << 3) | 3, 3, h) + d")
+        holder = {}
+
+        def poll(*_a):
+            c.invoke((holder['thr'], 'stop'))
+            return p
+        thr = holder['thr'] = c.new(mod + ':_CPXReceiveThread', c.ext('cpx', returns={'receivePacket': poll}), c.queue('inq'), c.ext('link_error'))
+        if early:
+            c.invoke((thr, 'stop'))
+        c.reset_trace()
+        c.call((thr, 'run'))
+        if early:
+            c.ensure('asks-for-nothing', "raised is None and len(sent('cpx.receivePacket')) == 0 and len(inq.queue) == 0")
+        else:
+            c.ensure('loop-ends-after-the-packet', "raised is None and len(sent('cpx.receivePacket')) == 1 and len(calls('link_error')) == 0")
+            c.ensure('taken-packet-is-delivered', 'len(inq.queue) == 1')
+            if c.snapshot('queued', 'len(inq.queue)') == 1:
+                c.snapshot('a', 'inq.queue[0]')
+                c.ensure('unchanged', 'a.header == h | 0x0C and a.port == h >> 4 and a.channel == h & 3 and bytes(a.data) == d')
+    return k
+
+
+_thread_stop(TCP)
+_thread_stop(SER)
+
+
+@contract('C18', 'tcpdriver.uplink.sequence', [TCP + ':TcpDriver.__init__', TCP + ':TcpDriver.send_packet', CPX + ':CPX.sendPacket', CPX + ':CPXRouter.sendPacket',
+                                               TRN + ':SocketTransport.writePacket'] + CODEC,
+          clause='uplink: a SEQUENCE of CRTP packets handed to the driver leaves as exactly that sequence of frames on the stream - one frame per '
+                 'packet, in order, each with its own header byte and payload (nothing of an earlier packet in a later frame), and the peer '
+                 're-assembles the stream into the same sequence',
+          bounded='three packets with payload lengths 2, 0, 1 and any header bytes on one driver / facade / router / transport; the peer reads '
+                  'with every recv returning as much as it may (fragmentation: tcp.reassembly.*)')
+def tcp_uplink_sequence(c):
+    lens = (2, 0, 1)
+    pks = []
+    for i, n in enumerate(lens):
+        c.int('h%d' % i, 0, 255)
+        pks.append(c.new(STK + ':CRTPPacket', c.get('h%d' % i), c.bytes('d%d' % i, n)))
+    router = c.new(CPX + ':CPXRouter', transport(c, c.ext('sock')))
+    drv = c.new(TCP + ':TcpDriver')
+    c.let('drv', drv)
+    c.let('facade', c.obj(CPX + ':CPX', _router=router))
+    c.snapshot('_', 'setattr(drv, "cpx", facade)')
+    c.reset_trace()
+    for i, pk in enumerate(pks):
+        c.call((drv, 'send_packet'), pk)
+        c.ensure('send%d-no-exception' % i, 'raised is None')
+    c.ensure('one-frame-per-packet-nothing-else', "calls() == ('sock.send',) * 3")
+    if len(c.get('trace')) != 3:
+        return
+    for i, n in enumerate(lens):
+        c.ensure('frame-%d' % i, "bytes(sent('sock.send')[%d][1][0]) == pack('<HBBB', %d, (3 << 3) | 1, 3, h%d | 0x0C) + d%d" % (i, n + 3, i, i))
+    total = sum(n + 5 for n in lens)
+    c.snapshot('S', ' + '.join("bytes(sent('sock.send')[%d][1][0])" % i for i in range(3)))
+    rsock, st = stream_socket(c, 'rsock', 'S', total, greedy=True)
+    rx = transport(c, rsock)
+    for i, n in enumerate(lens):
+        c.call((rx, 'readPacket'))
+        c.snapshot('q', 'result')
+        c.ensure('peer-reads-packet-%d' % i, "raised is None and q.source.value == 3 and q.destination.value == 1 and q.function.value == 3 and "
+                 "bytes(q.data) == pack('<B', h%d | 0x0C) + d%d" % (i, i))
